@@ -131,13 +131,22 @@ pub fn run(report: &Report, budget: &Budget) {
     report.set("validity_strings_valid", json!(n_valid));
 
     // 2. Order on all pairs to depth 4 (thorough) / 3 (quick), triples to depth 3 / 2.
-    let (pd, td) = if thorough { (4, 3) } else { (3, 2) };
+    let (pd, td) = (4, 3);
     let mk = |d: usize| -> Vec<String> {
         let mut p: Vec<String> = vec!["/".to_string()];
         p.extend(seqs(&VALID, d).into_iter().map(|s| format!("/{}", s.join("/"))));
         p
     };
-    let paths = mk(pd);
+    let mut paths = mk(pd);
+    if thorough {
+        // deeper paths over a smaller alphabet (depth <= 6)
+        paths.extend(
+            seqs(&["a", "a-b", "é"], 6)
+                .into_iter()
+                .filter(|s| s.len() > pd)
+                .map(|s| format!("/{}", s.join("/"))),
+        );
+    }
     let apaths: Vec<Apath> = paths.iter().map(|p| Apath::from(p.as_str())).collect();
     let pairs = AtomicU64::new(0);
     let outcomes = [AtomicU64::new(0), AtomicU64::new(0), AtomicU64::new(0)];
@@ -200,7 +209,7 @@ pub fn run(report: &Report, budget: &Budget) {
     let sp: Vec<&String> = sorted.iter().map(|i| &paths[*i]).collect();
     let mut dirs_checked = 0;
     for d in sp.iter() {
-        if d.matches('/').count() >= pd && d.as_str() != "/" {
+        if d.matches('/').count() >= pd.max(if thorough { 6 } else { 0 }) && d.as_str() != "/" {
             continue;
         }
         let idx: Vec<usize> = sp
